@@ -1461,6 +1461,25 @@ fn probes(prop: &str) -> Vec<Hist> {
                 OpSpec::Send { now: s(2) },
             ],
         });
+        // a burst handled by one worker wake-up: the first queued report hits only a non-active path, the second one the
+        // active path; the re-evaluation must look at the whole batch
+        let mut rs = two_routes();
+        rs.insert(0, Route { e0: 3, transit: vec![], last_in: 2 });
+        v.push(Hist {
+            kind: "probe-burst-unrelated-first".into(),
+            cfg: base_cfg(),
+            pol: PolSpec::None,
+            routes: rs,
+            t0,
+            ops: vec![
+                OpSpec::Maintain { now: s(0), resp: RespSpec::Ok(vec![PSpec { route: 0, expiry: far, meta: 0 }, PSpec { route: 1, expiry: far, meta: 0 }, PSpec { route: 2, expiry: far, meta: 0 }]) },
+                OpSpec::Send { now: s(1) },
+                OpSpec::Report { kind: KindSpec::Xid(1, 0x302, 5, 0), ts: s(2) },
+                OpSpec::Report { kind: KindSpec::Xid(1, SRC_ASN, 3, 0), ts: s(2) },
+                OpSpec::Deliver { now: s(2) },
+                OpSpec::Send { now: s(2) },
+            ],
+        });
         // the same through the socket: UdpScionSocket::send_to -> report_send_error -> worker -> next send_to
         v.push(wiring_hist("wiring-default-config", default_cfg(), two_routes(), vec![0, 1]));
         let mut c = default_cfg();
